@@ -262,9 +262,11 @@ class Genome:
             if self.on_mutation:
                 mutation.approved = self.on_mutation(mutation)
             else:
+                # Log the refused attempt first: a failing print (strict or
+                # non-UTF-8 stdout) must not lose the audit record.
+                self._mutations.append(mutation)
                 if not self.silent:
                     print(f"🧬 [Genome] Mutation rejected: {gene_name}")
-                self._mutations.append(mutation)
                 return False
 
         if not mutation.approved and not self.allow_mutations:
